@@ -53,6 +53,7 @@ def scenarios(tier):
     out.append(dict(name='partial-reads', kind='enum', runner='run_partial_reads', params=dict(), weight=10))
     out.append(dict(name='keepalive-busy', kind='enum', runner='run_keepalive_busy', params=dict(), weight=10))
     out.append(dict(name='adaptive-second-init', kind='enum', runner='run_adaptive_second_init', params=dict(), weight=30))
+    out.append(dict(name='reported-limits', kind='enum', runner='run_reported_limits', params=dict(), weight=10))
     return out
 
 
@@ -64,16 +65,26 @@ def run_silent_peer(params, known):
     for role in ('passive', 'active'):
         for idle in (1, 3):
             for keepalive in (0, 1, 5):
-                for when in ('at-once', 'after-tick'):
+                for when in ('at-once', 'after-tick', 'own-transfer-unacknowledged', 'inbound-transfer-half-received',
+                             'own-transfer-unacknowledged+peer-replies', 'inbound-transfer-half-received+peer-replies'):
                     count += 1
-                    w = PeerWorld(dict(role=role, idle=idle, keepalive=keepalive, seg_mru=64, tx_init=64))
+                    queued = (bytes(range(0xa0, 0xa3)).hex(),) if when.startswith('own-transfer') else ()
+                    w = PeerWorld(dict(role=role, idle=idle, keepalive=keepalive, seg_mru=64, tx_init=64, queued=queued))
                     w.peer_write(T.enc_contact(0) + T.enc_sess_init(keepalive, 64, 1000, b'dtn://p/'))
                     w.quiesce()
                     if when == 'after-tick' and keepalive:
                         w.apply(('tick',))
                         w.quiesce()
+                    if when.startswith('inbound-transfer'):
+                        # the peer starts a transfer and never finishes it
+                        w.peer_write(T.enc_segment(2, 7, b'ab', [T.ext_total_length(4)]))
+                        w.quiesce()
                     res = w.bus_call(w.proc, RPATH, 'terminate', 0, iface=RIFACE)
                     w.quiesce()
+                    if when.endswith('+peer-replies'):
+                        # both SESS_TERM exchanged while a transfer can never complete; then silence
+                        w.peer_write(T.enc_sess_term(1, 0))
+                        w.quiesce()
                     # the peer stays silent for ever; let time pass
                     for _ in range(12):
                         if w.r_closed() or w.next_deadline() is None:
@@ -224,6 +235,45 @@ def run_keepalive_busy(params, known):
                         v['case'] = case
                         violations.append(v)
     return dict(name='keepalive-busy', evaluations=count, violations=violations, known=[], samples=[])
+
+
+def run_reported_limits(params, known):
+    '''get_session_parameters() against a peer announcing boundary values: keepalive 0..65535,
+    segment and transfer MRU at every head-width / sign boundary up to 2**64-1.  The report is a
+    D-Bus variant holding a signed 32-bit integer, so a limit is reported as announced or, above
+    2**31-1, saturated to 2**31-1 - never as some other number.'''
+    violations = []
+    count = 0
+    big = [1, 23, 24, 255, 256, 65535, 65536, 2 ** 31 - 1, 2 ** 31, 2 ** 31 + 1000, 2 ** 32 - 1, 2 ** 32, 2 ** 32 + 5, 2 ** 63, 2 ** 64 - 2, 2 ** 64 - 1]
+    for role in ('passive', 'active'):
+        for (seg, xfer) in [(v, 2 ** 64 - 1) for v in big] + [(64, v) for v in big] + [(v, v) for v in (2 ** 31, 2 ** 32)]:
+            for (own_ka, peer_ka) in ((0, 0), (7, 65535), (65535, 3)):
+                count += 1
+                case = dict(role=role, segment_mru=seg, transfer_mru=xfer, keepalive_own=own_ka, keepalive_peer=peer_ka)
+                w = PeerWorld(dict(role=role, keepalive=own_ka, seg_mru=64, tx_init=64))
+                w.peer_write(T.enc_contact(0) + T.enc_sess_init(peer_ka, seg, xfer, b'dtn://p/'))
+                w.quiesce()
+                prm = w.bus_call(w.proc, RPATH, 'get_session_parameters', iface=RIFACE)
+                found = None
+                if w.escaped:
+                    found = 'escaped %s: %s' % (w.escaped[-1][0], w.escaped[-1][2])
+                elif prm[0] != 'ok':
+                    found = 'get_session_parameters failed: %r' % (prm,)
+                else:
+                    got = prm[1]
+                    for (key, announced) in (('peer_segment_mru', seg), ('peer_transfer_mru', xfer)):
+                        if key in got and int(got[key]) not in (announced, min(announced, 2 ** 31 - 1)):
+                            found = '%s reported as %d, the peer announced %d' % (key, int(got[key]), announced)
+                    want_ka = min(own_ka, peer_ka)
+                    if 'keepalive' in got and int(got['keepalive']) != want_ka:
+                        found = 'keepalive reported as %r, negotiated min(%d, %d)' % (got['keepalive'], own_ka, peer_ka)
+                    if str(got.get('peer_nodeid')) != 'dtn://p/':
+                        found = 'peer node id reported as %r' % (got.get('peer_nodeid'),)
+                if found and len(violations) < 4:
+                    v = Violation(PROP, 'negotiation', 'reported-parameters-differ-from-announced', dict(), '%r: %s' % (case, found)).as_dict()
+                    v['case'] = case
+                    violations.append(v)
+    return dict(name='reported-limits', evaluations=count, violations=violations, known=[], samples=[])
 
 
 def run_adaptive_second_init(params, known):
